@@ -513,8 +513,10 @@ def check_pass(res, ctx, prop, rng):
         rp.update({k: v for k, v in mm.items() if k not in ("what", "kind")})
         if prop == "C04" and kind == "missing-error":
             res.violation("failing-input", mm["what"], rp)
-        elif prop == "C06" and kind in ("extra-record", "stale-file"):
-            res.violation("failing-input", mm["what"] + " (the files written are not a function of the input alone)", rp)
+        elif prop == "C06" and kind == "extra-record":
+            res.violation("failing-input", mm["what"] + " (the file holds records that are not in the render model of this input)", rp)
+        elif prop == "C06" and kind in ("missing-record", "missing-file"):
+            res.violation("failing-input", mm["what"] + " (a record of the render model does not reach the file)", rp)
         else:
             rp["theorem_or_projection"] = "output files (Model/Output.v csv_dir_output / text_stdout against the real binary)"
             res.violation("broken-correspondence", "output model and the real binary differ: " + mm["what"], rp, found_input=False)
